@@ -703,6 +703,11 @@ func ruleC18Admit(cx *Ctx) {
 		}
 	})
 	candRoot := ssa.Value(bparam(efm, 1))
+	type t1check struct {
+		ok              bool
+		key, where, txt string
+	}
+	var t1 []t1check
 	sites := 0
 	allInstrs(efm, func(in ssa.Instruction) {
 		c, ok := in.(*ssa.Call)
@@ -721,7 +726,7 @@ func ruleC18Admit(cx *Ctx) {
 		okArgs := cn != nil && vn != nil && victimRoot != nil &&
 			derivesFrom(cn, candRoot, map[ssa.Value]bool{}) && !derivesFrom(cn, victimRoot, map[ssa.Value]bool{}) &&
 			derivesFrom(vn, victimRoot, map[ssa.Value]bool{}) && !derivesFrom(vn, candRoot, map[ssa.Value]bool{})
-		cx.R.Check(okArgs, rule, ename, "admit operands", cx.P.where(c), "admit(candidate.Key(), victim.Key()) with candidate from the window side and victim from the probation side")
+		t1 = append(t1, t1check{okArgs, "admit operands", cx.P.where(c), "admit(candidate.Key(), victim.Key()) with candidate from the window side and victim from the probation side"})
 		// on true the victim is evicted, on false the candidate
 		for _, i := range ifsOn(c) {
 			for side := 0; side < 2; side++ {
@@ -738,11 +743,89 @@ func ruleC18Admit(cx *Ctx) {
 				if wantVictim {
 					what = "victim"
 				}
-				cx.R.Check(ok, rule, ename, "admit="+fmt.Sprint(wantVictim)+" evicts "+what, cx.P.where(c), "the entry with the lower estimate is the one evicted")
+				t1 = append(t1, t1check{ok, "admit=" + fmt.Sprint(wantVictim) + " evicts " + what, cx.P.where(c), "the entry with the lower estimate is the one evicted"})
 			}
 		}
 	})
+	allOK := sites > 0
+	for _, c := range t1 {
+		allOK = allOK && c.ok
+	}
+	if allOK {
+		for _, c := range t1 {
+			cx.R.Check(true, rule, ename, c.key, c.where, c.txt)
+		}
+		return
+	}
+	sites = 0
 	if sites == 0 {
+		// the admission step may live in a helper (evict the loser, advance both cursors): decide it on the path summaries
+		admitPathTier(cx, rule, efm)
+	}
+}
+
+// admitPathTier: on every enumerated path of evictFromMain each admission decision admit(Key(C), Key(V)) is followed by
+// the eviction of V when it returned true and of C when it returned false; C comes from the candidate side (the
+// candidate parameter or the window's head), V from the victim side, and they are different nodes.
+func admitPathTier(cx *Ctx, rule string, efm *ssa.Function) {
+	ename := funcName(efm)
+	r := cx.runOp(rule, opSpec{"evictFromMain", "policy", "evictFromMain", nil, "admitflow", nil})
+	if r == nil {
+		return
+	}
+	a := newAgg(cx, rule, ename, cx.P.Pos(efm.Pos()))
+	decisions := 0
+	for _, o := range r.outs {
+		heads := map[string]string{} // result of Head -> queue
+		for _, e := range o.S.trace {
+			if q, _, ok := dequeCall(e, "Head"); ok && e.Res != "" {
+				heads[e.Res] = q
+			}
+		}
+		root := func(t string) string {
+			for strings.HasPrefix(t, "Next(") && strings.HasSuffix(t, ")") {
+				t = t[len("Next(") : len(t)-1]
+			}
+			return t
+		}
+		for i, e := range o.S.trace {
+			if e.Kind != "Admit" || len(e.Args) != 2 || e.Res == "" {
+				continue
+			}
+			cand, vict := strings.TrimSuffix(strings.TrimPrefix(e.Args[0], "Key("), ")"), strings.TrimSuffix(strings.TrimPrefix(e.Args[1], "Key("), ")")
+			cr, vr := root(cand), root(vict)
+			okArgs := strings.HasPrefix(e.Args[0], "Key(") && strings.HasPrefix(e.Args[1], "Key(") && cand != vict &&
+				(strings.HasPrefix(cr, "param:") || heads[cr] == "window") && heads[vr] != "" && cr != vr
+			a.check("admit operands", okArgs, "admit(candidate.Key(), victim.Key()) with candidate from the window side and victim from the probation side", "admit("+e.Args[0]+", "+e.Args[1]+")", o)
+			// the eviction that follows
+			evicted := ""
+			for _, x := range o.S.trace[i+1:] {
+				if x.Kind == "Admit" {
+					break
+				}
+				if x.Kind == "UserCall" && len(x.Args) > 2 && x.Args[0] == "evictNode" {
+					evicted = x.Args[2]
+					break
+				}
+			}
+			res, known := o.S.preds[e.Res]
+			if !known {
+				a.check("admission decides", false, "the result of admit decides who is evicted", "result of admit not tested", o)
+				continue
+			}
+			if evicted == "" && (o.Cut || o.Panic) {
+				continue
+			}
+			decisions++
+			if res {
+				a.check("admit=true evicts victim", evicted == vict, "the entry with the lower estimate is the one evicted", "evicted "+evicted, o)
+			} else {
+				a.check("admit=false evicts candidate", evicted == cand, "the entry with the lower estimate is the one evicted", "evicted "+evicted, o)
+			}
+		}
+	}
+	a.flush()
+	if decisions == 0 {
 		cx.R.Violate(rule, ename, "admit call", cx.P.Pos(efm.Pos()), "evictFromMain no longer consults admit")
 	}
 }
